@@ -1340,6 +1340,33 @@ bool pmc_ga_cas(size_t n, void* p, void* exp, void* des, int s, int f)
     if (pr.focus) post_op(pr, K_CAS, p, RA, lo64(p, n), ch);
     return ok;
 }
+// ------------------------------------------------------------------------------------------------
+// plain (non-atomic) accesses: only translation units built with memory-access instrumentation call these
+// (the MPI polling module in the MPI build: it manipulates plain vectors under a lock, and a change of
+// the lock discipline has no atomic operation inside the unprotected region).  An access is a scheduling
+// point only if its call site is in the spec's F-site table; everything else returns at once.
+static inline void plain_access(int kind, const volatile void* a, const void* ra)
+{
+    if (!cur_nsites || !(ctl && self >= 0 && !in_rt)) return;
+    if (!site_focused(ra, kind)) return;
+    Pre p = pre_op(kind, a, ra);
+    if (p.focus) { note_change(p, kind == K_STORE); post_op(p, kind, a, ra, 0, kind == K_STORE); }
+}
+#define PLAIN(N)                                                                                   \
+    void __tsan_read##N(void* a) { plain_access(K_LOAD, a, RA); }                                  \
+    void __tsan_write##N(void* a) { plain_access(K_STORE, a, RA); }                                \
+    void __tsan_unaligned_read##N(void* a) { plain_access(K_LOAD, a, RA); }                        \
+    void __tsan_unaligned_write##N(void* a) { plain_access(K_STORE, a, RA); }                      \
+    void __tsan_read_write##N(void* a) { plain_access(K_STORE, a, RA); }                           \
+    void __tsan_unaligned_read_write##N(void* a) { plain_access(K_STORE, a, RA); }
+PLAIN(1) PLAIN(2) PLAIN(4) PLAIN(8) PLAIN(16)
+void __tsan_vptr_update(void** a, void*) { plain_access(K_STORE, a, RA); }
+void __tsan_vptr_read(void** a) { plain_access(K_LOAD, a, RA); }
+void __tsan_read_range(void* a, unsigned long) { plain_access(K_LOAD, a, RA); }
+void __tsan_write_range(void* a, unsigned long) { plain_access(K_STORE, a, RA); }
+void __tsan_func_entry(void*) {}
+void __tsan_func_exit() {}
+
 void __tsan_atomic_thread_fence(int) { __atomic_thread_fence(__ATOMIC_SEQ_CST); }
 void __tsan_atomic_signal_fence(int) { __atomic_signal_fence(__ATOMIC_SEQ_CST); }
 }
